@@ -364,7 +364,8 @@ def evidence_info():
         "rule": (
             "one evaluation = one seeded configuration history: 0-6 cast-free rules (value-kind condition trees, paths with and without modifiers, paths "
             "selecting nothing, duplicate rules) built ONCE and shared by 2-6 schemas, each given the rule list in a seeded permutation (identity and "
-            "reversal always present); 1-3 callers validate every document (2-4 variants) against every schema in a seeded operation-boundary interleaving. "
+            "reversal always present); 1-3 callers validate every document (2-4 variants) against every schema in a seeded operation-boundary interleaving, in a "
+            "quarter of the runs editing their own documents in place between validations; near-duplicate rules (paths differing in one int part, or in the type of a numerically equal part) and mixed-type keys under a wildcard rule are generated on purpose. "
             "distinct = distinct (world, programs, interleaving) digests; non-trivial = at least 2 rules, at least 2 distinct permutations and at least one "
             "invalid verdict in the run."
         ),
